@@ -257,8 +257,8 @@ def run(tier: str) -> int:
             pool[cls.Plugin.name] += [CL.instances(key, fam_rng) for _ in range(6)]
         from . import geninst
         for ref in list(schemas.keys()):
-            if ref.name in LM.EXPECT and not LM.EXPECT[ref.name]:
-                continue     # the deliberately invalid plugins of the loading part
+            if ref.name in LM.EXPECT and (not LM.EXPECT[ref.name] or ref.name == "vl.decl"):
+                continue     # the deliberately invalid plugins of the loading part, and the one that opts out by @override
             cls = schemas._get_unsafe(ref.name, ref.version)
             chain = schemas.parent_path(ref.name, ref.version)[:-1]
             gen = []
